@@ -27,7 +27,7 @@ func init() {
 		Thorough:      []Part{{Flavor: "std", Cases: 60000}, {Flavor: "tiny", Cases: 8000}, {Flavor: "ptr", Cases: 8000}},
 		MinNonTrivial: 200})
 	add(&Prop{ID: "C07", Level: "exploration",
-		Rule:          "histories with up to 4 live registrations (all filter kinds incl. relation filters on alive/dead/zero targets), registered before or after matching tables exist, across target deaths, retire/reuse and several Resets; after every op every registered filter is iterated and compared as multiset with its original filter and with the model; hooked invariant I6 (list = brute force, no nil/duplicate/retired, removal index consistent); batch ops run through cached filters and are checked against the model. Non-trivial = distinct history with >=1 batch op through a cached filter, >=1 table retirement and >=20 cached/original comparisons.",
+		Rule:          "histories with up to 4 live registrations (all filter kinds incl. relation filters on alive/dead/zero targets), registered before or after matching tables exist, across target deaths, retire/reuse and several Resets; after every op every registered filter is iterated and compared as multiset with its original filter and with the model; hooked invariant I6 (list = brute force, no nil/duplicate/retired, removal index consistent); every second batch op is also run on a prefix-replayed twin world through the other form of the filter (cached <-> original) and the worlds, counts and Q-query contents are compared. Non-trivial = distinct history with >=1 batch op through a cached filter, >=1 table retirement, >=20 cached/original comparisons and >=1 twin comparison.",
 		Quick:         []Part{{Flavor: "std", Cases: 1500}, {Flavor: "tiny", Cases: 300}},
 		Thorough:      []Part{{Flavor: "std", Cases: 60000}, {Flavor: "tiny", Cases: 10000}, {Flavor: "ptr", Cases: 5000}},
 		MinNonTrivial: 200})
@@ -36,4 +36,19 @@ func init() {
 		Quick:         []Part{{Flavor: "std", Cases: 2000}, {Flavor: "tiny", Cases: 400}},
 		Thorough:      []Part{{Flavor: "std", Cases: 80000}, {Flavor: "tiny", Cases: 10000}},
 		MinNonTrivial: 200})
+	add(&Prop{ID: "C04", Level: "exploration",
+		Rule:          "three modes. pairs (exhaustive, exhaustive=true for this part): every ordered pair of IDs (a,b) x 7 operand pairs built from {a},{b},{a,b} and their complements, each checked for All/Get/Set/Reset/Not/And/Or/Xor/Contains/ContainsAny/IsZero/TotalBitsSet/Matches/Without/Exclusive against a [256]bool set model (one case = one ordered pair; all 65,536 resp. 4,096 pairs are run in every tier). random: mask pairs with densities {sparse, one word full, half, dense}. filters: random filter expressions (depth <=4, all logic kinds) x 200 component subsets, harness evaluator vs Matches. Non-trivial: pairs = (a,b) in different 64-bit words (tiny: a != b), random = operands spanning >1 word; filters = distinct expression that matched some but not all subsets.",
+		Quick:         []Part{{Flavor: "std", Mode: "pairs", Cases: 65536}, {Flavor: "tiny", Mode: "pairs", Cases: 4096}, {Flavor: "std", Mode: "random", Cases: 20000}, {Flavor: "tiny", Mode: "random", Cases: 5000}, {Flavor: "std", Mode: "filters", Cases: 3000}, {Flavor: "tiny", Mode: "filters", Cases: 1000}},
+		Thorough:      []Part{{Flavor: "std", Mode: "pairs", Cases: 65536}, {Flavor: "tiny", Mode: "pairs", Cases: 4096}, {Flavor: "std", Mode: "random", Cases: 1000000}, {Flavor: "tiny", Mode: "random", Cases: 200000}, {Flavor: "std", Mode: "filters", Cases: 200000}, {Flavor: "tiny", Mode: "filters", Cases: 50000}},
+		MinNonTrivial: 1000})
+	add(&Prop{ID: "C08", Level: "exploration",
+		Rule:          "batch-heavy histories; before every batch call a twin world is rebuilt by replaying the op-log prefix (transcripts must agree), then world A gets the batch call and twin B gets the documented single-entity call for each entity of B's pre-call query; compared: entity -> (components, bytes, target) maps through the public API, returned count vs. matched entities, Q-query contents vs. affected entities (SetRelation: target changed), handles of NewBatch(n) vs. n x New in order. The model (batch = loop of single-entity semantics) is checked too. Non-trivial = distinct history with >=1 batch over >=2 non-empty source tables and >=3 non-empty twin comparisons.",
+		Quick:         []Part{{Flavor: "std", Cases: 1200}, {Flavor: "tiny", Cases: 200}, {Flavor: "ptr", Cases: 200}},
+		Thorough:      []Part{{Flavor: "std", Cases: 50000}, {Flavor: "tiny", Cases: 8000}, {Flavor: "ptr", Cases: 5000}},
+		MinNonTrivial: 200})
+	add(&Prop{ID: "C10", Level: "fault_enumeration",
+		Rule:          "fault table: every illegal-argument class of the property x every operation it applies to (dead and recycled handles, present/absent components, duplicate IDs, second relation, relation calls on missing/non-relation components incl. component ID 0, dead or recycled relation targets through every target-taking entry point, non-positive batch counts, out-of-range query indices on plain/cached/batch-result queries, duplicate/missing resources, double (un)registration, type limit + 1 in both registries). Rows are injected round-robin at PRNG-chosen states of random histories, singly and in bursts of 3-5; each call must panic; for single-entity rows a full public snapshot (DumpEntities, every entity's mask/Ids/bytes/target, lock state, resources by pointer, registry, registered-filter results in order, Stats) plus the hooked core digest and an invariant walk must be identical before and after; the history then continues under the model. Every row must be exercised in every run (enforced). Non-trivial = distinct history with >=5 injected faults, at least one on a world with >=3 tables and a non-empty free list.",
+		Quick:         []Part{{Flavor: "std", Cases: 1500}, {Flavor: "tiny", Cases: 300}, {Flavor: "std", Mode: "limit", Cases: 60}, {Flavor: "tiny", Mode: "limit", Cases: 60}},
+		Thorough:      []Part{{Flavor: "std", Cases: 60000}, {Flavor: "tiny", Cases: 10000}, {Flavor: "ptr", Cases: 5000}, {Flavor: "std", Mode: "limit", Cases: 1000}, {Flavor: "tiny", Mode: "limit", Cases: 1000}},
+		MinNonTrivial: 200, RequirePrefix: "fault:", RequireDistinct: 92})
 }
